@@ -90,7 +90,10 @@ def realise_series(tissues, nint, times, lab_seeds, relabel=True, flips="none"):
     S.nint = nint
     S.times = list(times)
     for k, t in enumerate(tissues):
-        lab = Labelling(seed=lab_seeds[k], relabel_v=relabel, relabel_e=relabel, relabel_c=False, shifts=relabel,
+        # independent numbering per frame: ids with gaps (never 0) or a permutation of 0..n-1 (id 0 somewhere else
+        # in every frame), alternating with the drawn seed
+        mode = ("perm0" if lab_seeds[k] % 2 else True) if relabel else False
+        lab = Labelling(seed=lab_seeds[k], relabel_v=mode, relabel_e=relabel, relabel_c=False, shifts=relabel,
                         flips=flips)
         R = realise(t, nint, lab)
         S.R[k] = R
